@@ -771,4 +771,274 @@ theorem Arr.trim_abs {a : Arr} {xs : List Val} (h : a.Abs xs) : (a.trim).2 = .ok
     subst hx
     exact ⟨rfl, ⟨hce, rep_nil _, by simp, by have := i32max_eq; simp only []; omega⟩⟩
 
+/-! ### buffers -/
+
+/-- the buffer `b` represents the byte list `xs` -/
+structure Buf.Abs (b : Buf) (xs : List Nat) : Prop where
+  count_eq : b.count = xs.length
+  rep : Rep b.cells xs
+  cap : b.cells.size = b.capacity.toNat
+  fits : b.capacity ≤ i32max
+  pos : 0 < b.capacity
+
+/-- **count ≤ capacity** for buffers -/
+theorem Buf.Abs.count_le {b : Buf} {xs : List Nat} (h : b.Abs xs) : (b.count : Int) ≤ b.capacity := by
+  have := h.rep.len_le
+  have h1 := h.cap; have h2 := h.count_eq; have h3 := h.pos
+  omega
+
+theorem Buf.Abs.items {b : Buf} {xs : List Nat} (h : b.Abs xs) : b.items = xs.map some := by
+  unfold Buf.items
+  rw [h.count_eq]
+  exact readAt_of_rep h.rep
+
+theorem buf_facts : (1 : Int) ≤ bufferSetcountGrowth ∧ (2 : Int) ≤ bufferExtraGrowth ∧ (0 : Int) < bufferMinCap ∧
+    bufferMinCap ≤ i32max ∧ bufferExtraGrowth ≤ 2 := by decide
+
+theorem Buf.new_abs (c : Int) (hc : c ≤ i32max) : (Buf.new c).Abs [] := by
+  unfold Buf.new
+  have hf := buf_facts
+  refine ⟨rfl, rep_nil _, by simp, ?_, ?_⟩
+  · simp only []
+    by_cases h : c < bufferMinCap
+    · rw [if_pos h]; exact hf.2.2.2.1
+    · rw [if_neg h]; exact hc
+  · simp only []
+    by_cases h : c < bufferMinCap
+    · rw [if_pos h]; exact hf.2.2.1
+    · rw [if_neg h]; omega
+
+/-- `janet_buffer_ensure` (growth ≥ 1, request fits `int32_t`): never out of memory, contents kept -/
+theorem Buf.ensure_abs {b : Buf} {xs : List Nat} (h : b.Abs xs) (c g : Int) (hg : 1 ≤ g) (hc : c ≤ i32max) :
+    ∃ b', b.ensure c g = some b' ∧ b'.Abs xs ∧ c ≤ b'.capacity ∧ b'.count = b.count := by
+  unfold Buf.ensure
+  by_cases h1 : c ≤ b.capacity
+  · rw [if_pos h1]; exact ⟨b, rfl, h, h1, rfl⟩
+  · rw [if_neg h1]
+    simp only []
+    have hle := h.rep.len_le
+    have hcap := h.cap
+    have hcnt := h.count_eq
+    have hpos := h.pos
+    have hcg : c ≤ c * g := by
+      have : c * 1 ≤ c * g := Int.mul_le_mul_of_nonneg_left hg (by omega)
+      omega
+    generalize hnc : (if c * g > i32max then i32max else c * g) = nc
+    have hnc1 : c ≤ nc ∧ nc ≤ i32max := by
+      by_cases cc : c * g > i32max
+      · rw [if_pos cc] at hnc; omega
+      · rw [if_neg cc] at hnc; omega
+    have hno : ¬ (nc ≤ 0) := by omega
+    rw [if_neg hno]
+    exact ⟨_, rfl, ⟨hcnt, rep_realloc h.rep _ (by omega), by simp [size_realloc], hnc1.2, by simp only []; omega⟩, hnc1.1, rfl⟩
+
+/-- `janet_buffer_extra(n)`: the overflow guard raises the error, otherwise there is room for `n` more bytes -/
+theorem Buf.extra_abs {b : Buf} {xs : List Nat} (h : b.Abs xs) (n : Int) (hn : 0 ≤ n) :
+    (n + b.count > i32max ∧ b.extra n = (b, .err)) ∨
+    (n + b.count ≤ i32max ∧ (b.extra n).2 = .ok ∧ (b.extra n).1.Abs xs ∧ (b.count : Int) + n ≤ (b.extra n).1.capacity ∧
+      (b.extra n).1.count = b.count) := by
+  unfold Buf.extra
+  have hf := buf_facts
+  by_cases h1 : n + (b.count : Int) > i32max
+  · left; exact ⟨h1, by rw [if_pos h1]⟩
+  · right
+    rw [if_neg h1]
+    simp only []
+    refine ⟨by omega, ?_⟩
+    by_cases h2 : (b.count : Int) + n > b.capacity
+    · rw [if_pos h2]
+      have hge : bufferExtraGrowth = 2 := by omega
+      generalize hnc : (if (b.count : Int) + n > i32max / bufferExtraGrowth then i32max else ((b.count : Int) + n) * bufferExtraGrowth) = nc
+      have hnc1 : (b.count : Int) + n ≤ nc ∧ nc ≤ i32max := by
+        have hi := i32max_eq
+        rw [hge] at hnc
+        by_cases cc : (b.count : Int) + n > i32max / 2
+        · rw [if_pos cc] at hnc; omega
+        · rw [if_neg cc] at hnc; omega
+      have hpos := h.pos
+      have hno : ¬ (nc ≤ 0) := by omega
+      rw [if_neg hno]
+      have hle := h.rep.len_le; have hcap := h.cap; have hcnt := h.count_eq
+      exact ⟨rfl, ⟨hcnt, rep_realloc h.rep _ (by omega), by simp [size_realloc], hnc1.2, by simp only []; omega⟩, hnc1.1, rfl⟩
+    · rw [if_neg h2]; exact ⟨rfl, h, by show (b.count : Int) + n ≤ b.capacity; omega, rfl⟩
+
+/-- `janet_buffer_push_bytes`: appends or raises "buffer overflow" -/
+theorem Buf.pushBytes_abs {b : Buf} {xs : List Nat} (h : b.Abs xs) (ys : List Nat) :
+    ((xs.length : Int) + ys.length > i32max ∧ b.pushBytes (ys.map some) = (b, .err)) ∨
+    ((b.pushBytes (ys.map some)).2 = .ok ∧ (b.pushBytes (ys.map some)).1.Abs (xs ++ ys)) := by
+  unfold Buf.pushBytes
+  have hce := h.count_eq
+  simp only [List.length_map]
+  by_cases h0 : ys.length = 0
+  · right
+    rw [if_pos h0]
+    have : ys = [] := List.length_eq_zero_iff.mp h0
+    subst this
+    exact ⟨rfl, by simpa using h⟩
+  · rw [if_neg h0]
+    rcases Buf.extra_abs h (ys.length : Int) (by omega) with ⟨hgt, he⟩ | ⟨hle, hok, hA, hroom, hcnt⟩
+    · left
+      rw [he]
+      exact ⟨by omega, rfl⟩
+    · right
+      rw [hok]
+      simp only []
+      refine ⟨by first | rfl | trivial, ⟨?_, ?_, by simpa [size_writeAt] using hA.cap, hA.fits, hA.pos⟩⟩
+      · simp; omega
+      · simp only []
+        rw [hce]
+        exact rep_write_append hA.rep ys (by have := hA.cap; have := hA.pos; omega)
+
+/-- `janet_buffer_setcount`: truncates, or extends with zero bytes -/
+theorem Buf.setcount_abs {b : Buf} {xs : List Nat} (h : b.Abs xs) (c : Int) (hc : c ≤ i32max) :
+    (b.setcount c).2 = .ok ∧
+    (b.setcount c).1.Abs (if c < 0 then xs else if c > xs.length then xs ++ List.replicate (c.toNat - xs.length) 0 else xs.take c.toNat) := by
+  unfold Buf.setcount
+  have hce := h.count_eq
+  by_cases h0 : c < 0
+  · rw [if_pos h0, if_pos h0]; exact ⟨rfl, h⟩
+  · rw [if_neg h0, if_neg h0]
+    by_cases h1 : c > (b.count : Int)
+    · have h1' : c > (xs.length : Int) := by omega
+      rw [if_pos h1, if_pos h1']
+      obtain ⟨b', he, hb', hcc, hcnt⟩ := Buf.ensure_abs h c bufferSetcountGrowth buf_facts.1 hc
+      rw [he]
+      refine ⟨rfl, ⟨?_, ?_, by simpa [size_writeAt] using hb'.cap, hb'.fits, hb'.pos⟩⟩
+      · simp; omega
+      · simp only []
+        rw [hce]
+        have := rep_write_append hb'.rep (List.replicate (c.toNat - xs.length) 0) (by
+          have := hb'.cap; have := hb'.pos; simp; omega)
+        simpa using this
+    · have h1' : ¬ c > (xs.length : Int) := by omega
+      rw [if_neg h1, if_neg h1']
+      refine ⟨rfl, ⟨?_, rep_take h.rep _, h.cap, h.fits, h.pos⟩⟩
+      simp; omega
+
+/-- `cfun_buffer_popn` -/
+theorem Buf.popn_abs {b : Buf} {xs : List Nat} (h : b.Abs xs) (n : Arg) :
+    (b.popn n = (b, .err)) ∨
+    ∃ m : Int, n = .int m ∧ 0 ≤ m ∧ (b.popn n).2 = .ok ∧ (b.popn n).1.Abs (xs.take (xs.length - m.toNat)) := by
+  unfold Buf.popn
+  have hce := h.count_eq
+  cases hg : getInteger n with
+  | none => left; rfl
+  | some m =>
+    have hn : n = .int m := by
+      cases n with
+      | int k => simp [getInteger] at hg; rw [hg]
+      | nil => cases hg
+      | bad => cases hg
+    simp only []
+    by_cases c0 : m < 0
+    · left; rw [if_pos c0]
+    · right
+      rw [if_neg c0]
+      refine ⟨m, hn, by omega, ?_⟩
+      by_cases c1 : (b.count : Int) < m
+      · rw [if_pos c1]
+        have : xs.length - m.toNat = 0 := by omega
+        rw [this]
+        exact ⟨rfl, ⟨by simp, rep_nil _, h.cap, h.fits, h.pos⟩⟩
+      · rw [if_neg c1]
+        refine ⟨rfl, ⟨?_, rep_take h.rep _, h.cap, h.fits, h.pos⟩⟩
+        simp; omega
+
+/-- `cfun_buffer_fill` with a well-typed byte -/
+theorem Buf.fill_abs {b : Buf} {xs : List Nat} (h : b.Abs xs) (v : Int) :
+    (b.fill (some (.int v))).2 = .ok ∧ (b.fill (some (.int v))).1.Abs (List.replicate xs.length (lowByte v)) := by
+  unfold Buf.fill
+  simp only [getInteger, Option.map_some]
+  refine ⟨by first | rfl | trivial, ⟨by simp [h.count_eq], ?_, by simpa [size_writeAt] using h.cap, h.fits, h.pos⟩⟩
+  have := rep_write_append (rep_nil b.cells) (List.replicate b.count (lowByte v)) (by
+    have := h.rep.len_le; have := h.count_eq; simp; omega)
+  simpa [h.count_eq] using this
+
+/-- memcpy of `ys` over the represented list at offset `p` (the core of buffer/blit and buffer/push-at) -/
+theorem rep_write_over {α : Type} {cells : Array (Option α)} {xs : List α} (r : Rep cells xs) (p : Nat) (ys : List α)
+    (hp : p ≤ xs.length) (hl : p + ys.length ≤ cells.size) :
+    Rep (writeAt cells p (ys.map some)) (xs.take p ++ ys ++ xs.drop (p + ys.length)) := by
+  intro i h
+  have hlen : i < p + ys.length + (xs.length - (p + ys.length)) := by
+    have : (xs.take p ++ ys ++ xs.drop (p + ys.length)).length = p + ys.length + (xs.length - (p + ys.length)) := by
+      simp; omega
+    omega
+  rw [getElem?_writeAt]
+  simp only [List.length_map]
+  have hl1 : (List.take p xs).length = p := by simp; omega
+  by_cases h1 : i < p
+  · have n1 : ¬ (p ≤ i ∧ i < p + ys.length ∧ i < cells.size) := by omega
+    rw [if_neg n1, List.append_assoc, List.getElem?_append_left (by omega), List.getElem?_take]
+    simp only [h1, if_true]
+    exact r i (by omega)
+  · rw [List.append_assoc, List.getElem?_append_right (by omega), hl1]
+    by_cases h2 : i < p + ys.length
+    · have y1 : p ≤ i ∧ i < p + ys.length ∧ i < cells.size := by omega
+      rw [if_pos y1, List.getElem?_append_left (by omega)]
+      have : i - p < ys.length := by omega
+      simp [this]
+    · have n1 : ¬ (p ≤ i ∧ i < p + ys.length ∧ i < cells.size) := by omega
+      rw [if_neg n1, List.getElem?_append_right (by omega), List.getElem?_drop]
+      have e : p + ys.length + (i - p - ys.length) = i := by omega
+      rw [e]
+      exact r i (by omega)
+
+theorem blit_finish {d' : Buf} {xs : List Nat} (hd' : d'.Abs xs) (od ls : Int) (chunk : List Nat)
+    (hod : 0 ≤ od ∧ od ≤ xs.length) (hls : 0 ≤ ls) (hcl : chunk.length = ls.toNat) (hcc : od + ls ≤ d'.capacity) :
+    Buf.Abs { d' with count := if od + ls > (d'.count : Int) then (od + ls).toNat else d'.count,
+                      cells := writeAt d'.cells od.toNat (chunk.map some) }
+      (xs.take od.toNat ++ chunk ++ xs.drop (od.toNat + chunk.length)) := by
+  have hcap := hd'.cap; have hpos := hd'.pos; have hce := hd'.count_eq
+  have hw := rep_write_over hd'.rep od.toNat chunk (by omega) (by omega)
+  refine ⟨?_, hw, by simpa [size_writeAt] using hd'.cap, hd'.fits, hd'.pos⟩
+  simp only []
+  have hlen : (xs.take od.toNat ++ chunk ++ xs.drop (od.toNat + chunk.length)).length =
+      od.toNat + chunk.length + (xs.length - (od.toNat + chunk.length)) := by simp; omega
+  rw [hlen, hcl, hce]
+  by_cases c : od + ls > (xs.length : Int)
+  · rw [if_pos c]; omega
+  · rw [if_neg c]; omega
+
+/-- the copying part of buffer/blit with decoded, in-range offsets, source different from the destination: the chunk
+`ys[os, os+ls)` overwrites the destination from `od` on (extending it when it reaches past the end); "buffer blit out
+of range" when the end would not fit `int32_t` -/
+theorem Buf.blitCore_abs {d : Buf} {xs : List Nat} (h : d.Abs xs) (ys : List Nat) (od os ls : Int)
+    (hod : 0 ≤ od ∧ od ≤ xs.length) (hos : 0 ≤ os) (hls : 0 ≤ ls) (hsrc : os + ls ≤ ys.length) :
+    (od + ls > i32max ∧ d.blitCore (some (ys.map some)) ys.length od os ls = (d, .err)) ∨
+    ((d.blitCore (some (ys.map some)) ys.length od os ls).2 = .ok ∧
+     (d.blitCore (some (ys.map some)) ys.length od os ls).1.Abs
+       (xs.take od.toNat ++ (ys.drop os.toNat).take ls.toNat ++
+        xs.drop (od.toNat + ((ys.drop os.toNat).take ls.toNat).length))) := by
+  unfold Buf.blitCore
+  simp only []
+  by_cases h1 : od + ls > i32max
+  · left; exact ⟨h1, by rw [if_pos h1]⟩
+  · right
+    rw [if_neg h1]
+    obtain ⟨d', he, hd', hcc, hcnt⟩ := Buf.ensure_abs h (od + ls) 2 (by omega) (by omega)
+    rw [he]
+    simp only []
+    rw [← List.map_drop, ← List.map_take]
+    exact ⟨by first | rfl | trivial, blit_finish hd' od ls _ hod hls (by simp; omega) hcc⟩
+
+/-- ... and with the destination itself as source (memmove; the bytes are read after the reallocation) -/
+theorem Buf.blitCore_self_abs {d : Buf} {xs : List Nat} (h : d.Abs xs) (od os ls : Int)
+    (hod : 0 ≤ od ∧ od ≤ xs.length) (hos : 0 ≤ os) (hls : 0 ≤ ls) (hsrc : os + ls ≤ xs.length) :
+    (od + ls > i32max ∧ d.blitCore none xs.length od os ls = (d, .err)) ∨
+    ((d.blitCore none xs.length od os ls).2 = .ok ∧
+     (d.blitCore none xs.length od os ls).1.Abs
+       (xs.take od.toNat ++ (xs.drop os.toNat).take ls.toNat ++
+        xs.drop (od.toNat + ((xs.drop os.toNat).take ls.toNat).length))) := by
+  unfold Buf.blitCore
+  simp only []
+  by_cases h1 : od + ls > i32max
+  · left; exact ⟨h1, by rw [if_pos h1]⟩
+  · right
+    rw [if_neg h1]
+    obtain ⟨d', he, hd', hcc, hcnt⟩ := Buf.ensure_abs h (od + ls) 2 (by omega) (by omega)
+    rw [he]
+    simp only []
+    rw [readAt_of_rep hd'.rep, ← List.map_drop, ← List.map_take]
+    exact ⟨by first | rfl | trivial, blit_finish hd' od ls _ hod hls (by simp; omega) hcc⟩
+
 end JanetModel.Seq
